@@ -288,27 +288,27 @@ def _pm(g):
 
 
 def _prec(g):
-    return None, [g.ep(1000, 3000), g.ep(1000, 3000), g.ang(0, 360), g.ang(-89, 89)] + _pm(g), {}
+    return None, [g.ep(1000, 3000), g.ep(1000, 3000), g.ang(-360, 360), g.ang(-89, 89)] + _pm(g), {}
 
 
 _co('precession_equatorial', _prec, 1.2, 400)
 _co('precession_ecliptical', _prec, 1.0, 400)
-_co('precession_newcomb', lambda g: (None, [g.ep(1700, 2200), g.ep(1700, 2200), g.ang(0, 360), g.ang(-89, 89)] + _pm(g), {}),
+_co('precession_newcomb', lambda g: (None, [g.ep(1700, 2200), g.ep(1700, 2200), g.ang(-360, 360), g.ang(-89, 89)] + _pm(g), {}),
     0.8, 400)
-_co('p_motion_equa2eclip', lambda g: (None, [g.ang(-0.003, 0.003), g.ang(-0.003, 0.003), g.ang(0, 360), g.ang(-89, 89),
+_co('p_motion_equa2eclip', lambda g: (None, [g.ang(-0.003, 0.003), g.ang(-0.003, 0.003), g.ang(-360, 360), g.ang(-89, 89),
                                               g.ang(-89, 89), g.ang(20, 25)], {}), 0.5, 60)
-_co('motion_in_space', lambda g: (None, [g.ang(0, 360), g.ang(-89, 89), g.f(1, 1000), g.f(-100, 100),
+_co('motion_in_space', lambda g: (None, [g.ang(-360, 360), g.ang(-89, 89), g.f(1, 1000), g.f(-100, 100),
                                           g.ang_or_float(-0.003, 0.003), g.ang_or_float(-0.003, 0.003),
                                           g.f(-1e4, 1e4)], {}), 0.6, 150)
-_co('equatorial2ecliptical', lambda g: (None, [g.ang(0, 360), g.ang(-89, 89), g.ang(20, 25)], {}), 1.0, 120)
-_co('ecliptical2equatorial', lambda g: (None, [g.ang(0, 360), g.ang(-89, 89), g.ang(20, 25)], {}), 1.0, 120)
+_co('equatorial2ecliptical', lambda g: (None, [g.ang(-360, 360), g.ang(-89, 89), g.ang(20, 25)], {}), 1.0, 120)
+_co('ecliptical2equatorial', lambda g: (None, [g.ang(-360, 360), g.ang(-89, 89), g.ang(20, 25)], {}), 1.0, 120)
 _co('equatorial2horizontal', lambda g: (None, [g.ang(-360, 360), g.ang(-89, 89), g.ang(-89, 89)], {}), 1.0, 100)
 _co('horizontal2equatorial', lambda g: (None, [g.ang(-360, 360), g.ang(-89, 89), g.ang(-89, 89)], {}), 1.0, 100)
-_co('equatorial2galactic', lambda g: (None, [g.ang(0, 360), g.ang(-89, 89)], {}), 0.8, 200)
-_co('galactic2equatorial', lambda g: (None, [g.ang(0, 360), g.ang(-89, 89)], {}), 0.8, 200)
+_co('equatorial2galactic', lambda g: (None, [g.ang(-360, 360), g.ang(-89, 89)], {}), 0.8, 200)
+_co('galactic2equatorial', lambda g: (None, [g.ang(-360, 360), g.ang(-89, 89)], {}), 0.8, 200)
 _co('parallactic_angle', lambda g: (None, [g.ang(-360, 360), g.ang(-89, 89), g.ang(-89, 89)], {}), 0.5, 60)
-_co('ecliptic_horizon', lambda g: (None, [g.ang(0, 360), g.ang(-89, 89), g.ang(20, 25)], {}), 0.6, 150)
-_co('ecliptic_equator', lambda g: (None, [g.ang(0, 360), g.ang(-89, 89), g.ang(20, 25)], {}), 0.5, 60)
+_co('ecliptic_horizon', lambda g: (None, [g.ang(-360, 360), g.ang(-89, 89), g.ang(20, 25)], {}), 0.6, 150)
+_co('ecliptic_equator', lambda g: (None, [g.ang(-360, 360), g.ang(-89, 89), g.ang(20, 25)], {}), 0.5, 60)
 _co('diurnal_path_horizon', lambda g: (None, [g.ang(-40, 40), g.ang(-40, 40)], {}), 0.5, 60)
 
 
@@ -336,7 +336,7 @@ def _two_dirs(g):
 
 def _sep(g):
     if g.rng.random() < 0.5:
-        return None, [g.ang(0, 360), g.ang(-85, 85), g.ang(0, 360), g.ang(-85, 85)], {}
+        return None, [g.ang(-360, 360), g.ang(-85, 85), g.ang(-360, 360), g.ang(-85, 85)], {}
     return None, _two_dirs(g), {}
 
 
@@ -400,9 +400,9 @@ _EX_RTS = [_dm(71, 5, 0.0), _dm(42, 20, 0.0), _ra(2, 42, 43.25), _dm(18, 2, 51.4
            _ra(2, 51, 7.69), _dm(18, 49, 38.7), -0.5667]
 _co('times_rise_transit_set',
     lambda g: (None, [_jit(g, v, 1e-3) for v in _EX_RTS] + [g.num(50, 70), _jit(g, _ra(11, 50, 58.1), 1e-3)], {}), 0.8, 900)
-_co('apparent_position', lambda g: (None, [g.ep(-1900, 3900), g.ang(0, 360), g.ang(-85, 85), g.ang(0, 360)], {}), 0.8, 19000)
-_co('orbital_equinox2equinox', lambda g: (None, [g.ep(1000, 3000), g.ep(1000, 3000), g.ang(2, 170), g.ang(0, 360),
-                                                  g.ang(0, 360)], {}), 0.6, 300)
+_co('apparent_position', lambda g: (None, [g.ep(-1900, 3900), g.ang(-360, 360), g.ang(-85, 85), g.ang(-360, 360)], {}), 0.8, 19000)
+_co('orbital_equinox2equinox', lambda g: (None, [g.ep(1000, 3000), g.ep(1000, 3000), g.ang(2, 170), g.ang(-360, 360),
+                                                  g.ang(-360, 360)], {}), 0.6, 300)
 _co('kepler_equation', lambda g: (None, [g.num(0, 0.97) if g.rng.random() < 0.9 else {"i": 0}, g.ang(-360, 360)], {}), 1.0, 400)
 
 PLANETS = ['Mercury', 'Venus', 'Earth', 'Mars', 'Jupiter', 'Saturn', 'Uranus', 'Neptune']
@@ -553,10 +553,10 @@ _st(EA, 'orbital_elements_j2000', _epoch_only(-1900, 3900), 0.4, 150, 'Earth')
 _st(EA, 'perihelion_aphelion', _epoch_flag(-1900, 3900, 'perihelion'), 0.3, 45000, 'Earth')
 _st(EA, 'passage_nodes', _epoch_flag(-1900, 3900, 'ascending'), 0.3, 45000, 'Earth')
 _st(EA, 'parallax_correction',
-    lambda g: (None, [g.ang(0, 360), g.ang(-85, 85), g.ang(-85, 85), g.f(0.002, 50), g.ang(-180, 180)] +
+    lambda g: (None, [g.ang(-360, 360), g.ang(-85, 85), g.ang(-85, 85), g.f(0.002, 50), g.ang(-180, 180)] +
                ([g.f(0, 4000)] if g.rng.random() < 0.5 else []), {}), 0.5, 300, 'Earth')
 _st(EA, 'parallax_ecliptical',
-    lambda g: (None, [g.ang(0, 360), g.ang(-85, 85), g.ang(0.001, 0.5), g.ang(-85, 85), g.ang(20, 25), g.ang(0, 360),
+    lambda g: (None, [g.ang(-360, 360), g.ang(-85, 85), g.ang(0.001, 0.5), g.ang(-85, 85), g.ang(20, 25), g.ang(-360, 360),
                       g.f(0.002, 50)] + ([g.f(0, 4000)] if g.rng.random() < 0.5 else []), {}), 0.5, 400, 'Earth')
 
 # ------------------------------------------------------------------ Sun
@@ -666,7 +666,7 @@ def _minor_args(g):
         e = 1.0
     else:
         e = g.rng.uniform(0.985, 0.999)
-    return [g.f(0.3, 8), g.fv(e), g.ang(0, 170), g.ang(0, 360), g.ang(0, 360), g.ep(1700, 2300)]
+    return [g.f(0.3, 8), g.fv(e), g.ang(0, 170), g.ang(-360, 360), g.ang(-360, 360), g.ep(1700, 2300)]
 
 
 add('Minor.__init__', 'new', MI, 'capture', lambda g: (None, _minor_args(g), {}), 0.8, 150, 'Minor')
